@@ -133,7 +133,7 @@ run_deflate(struct scn *s)
         struct feeder fd;
         uint32_t lsz = lbuf_size(s->level, s->lbuf);
         size_t fed = 0, maxao = 0;
-        int i, eos_set = 0, faulted = 0, ret = 0, last_flush = 0;
+        int i, eos_set = 0, faulted = 0, ret = 0, last_flush = 0, dstall = 0;
         unsigned char *chunk = NULL;
         size_t chunk_n = 0;
         const char *why = "cap";
@@ -332,6 +332,15 @@ run_deflate(struct scn *s)
                         why = "oneshot";
                         break;
                 }
+                if (ai0 == z->avail_in && (uint32_t) c.ao == z->avail_out && c.ao > 0 && st0 == (int) z->internal_state.state &&
+                    (ai0 > 0 || eos_set || c.flush) && i >= s->ncalls)
+                        dstall++;
+                else
+                        dstall = 0;
+                if (dstall >= 4) {
+                        why = "stalled";
+                        break;
+                }
                 if (z->internal_state.state == ZSTATE_END) {
                         why = "end";
                         break;
@@ -364,7 +373,7 @@ run_inflate(struct scn *s)
         struct inflate_state *st;
         struct feeder fd;
         size_t fed = 0, maxao = 0;
-        int i, faulted = 0, ret = 0, starve = 0;
+        int i, faulted = 0, ret = 0, starve = 0, stalled = 0;
         unsigned char *chunk = NULL;
         size_t chunk_n = 0;
         const char *why = "cap";
@@ -463,6 +472,10 @@ run_inflate(struct scn *s)
                                 starve++;
                         else
                                 starve = 0;
+                        if (cns == 0 && prd == 0 && c.ao > 0 && st->avail_in > 0 && ret == 0)
+                                stalled++; /* input and room available, nothing happens */
+                        else
+                                stalled = 0;
                 }
                 if (st->avail_in == 0 && chunk) {
                         release_chunk(&fd, chunk, chunk_n);
@@ -482,6 +495,10 @@ run_inflate(struct scn *s)
                 }
                 if (starve >= 2) {
                         why = "starved"; /* all input given, space offered twice, nothing happens: stream incomplete */
+                        break;
+                }
+                if (stalled >= 3) {
+                        why = "stalled";
                         break;
                 }
         }
